@@ -420,12 +420,13 @@ fn funds() -> BoxedStrategy<Funds> {
         .boxed()
 }
 
-fn time_sel() -> BoxedStrategy<TimeSel> {
+fn time_sel(p: &Profile) -> BoxedStrategy<TimeSel> {
+    let w_owner = if p.name == "C12" { 12 } else { 1 };
     prop_oneof![
         3 => (0u32..5000).prop_map(TimeSel::Plus),
         5 => (0u8..3).prop_map(TimeSel::PendingDue),
         5 => (0u8..8, 0u8..3).prop_map(|(b, d)| TimeSel::UnbondDue(b, d)),
-        1 => (0u8..3).prop_map(TimeSel::OwnerDue),
+        w_owner => (0u8..3).prop_map(TimeSel::OwnerDue),
         1 => Just(TimeSel::Far),
     ]
     .boxed()
@@ -560,7 +561,7 @@ pub fn op_strategy(p: &Profile) -> BoxedStrategy<Op> {
         5 => Just(OwnAct::Accept),
     ];
     let owner = (any_caller(), ownact).prop_map(|(user, act)| Op::Ownership { user, act });
-    let advance = time_sel().prop_map(Op::Advance);
+    let advance = time_sel(p).prop_map(Op::Advance);
     let traffic = (1u8..5).prop_map(Op::Traffic);
     let query = query_sel().prop_map(Op::Query);
     let all: Vec<(u32, BoxedStrategy<Op>)> = vec![
